@@ -500,6 +500,7 @@ impl Machine {
                         0 => BigUint::from_bytes_le(&bytes),
                         1 => BigUint::from_bytes_be(&bytes),
                         2 => <BigUint as num_traits::FromBytes>::from_le_bytes(&bytes),
+                        4 => <BigUint as num_traits::FromBytes>::from_ne_bytes(&bytes),
                         _ => <BigUint as num_traits::FromBytes>::from_be_bytes(&bytes),
                     };
                     self.put_u(d, x, obs);
@@ -883,6 +884,11 @@ impl Machine {
                         9 => (format!("{:<#30b}", x), 0, false),
                         10 => (format!("{:^+25o}", x), 0, false),
                         11 => (format!("{:012X}", x), 0, true),
+                        13 => (format!("{:\u{2665}<9}", x), u32::MAX, false),
+                        14 => (format!("{:\u{e9}^+31x}", x), u32::MAX, false),
+                        15 => (format!("{:\u{2192}>#27b}", x), u32::MAX, false),
+                        16 => (format!("{:\u{1f600}<70}", x), u32::MAX, false),
+                        17 => (format!("{:\u{2665}^6o}", x), u32::MAX, false),
                         _ => (format!("{:#034x}", x), 0, false),
                     };
                     dg.str(&txt);
@@ -899,6 +905,7 @@ impl Machine {
                         0 => x.to_bytes_le(),
                         1 => x.to_bytes_be(),
                         2 => num_traits::ToBytes::to_le_bytes(x),
+                        4 => num_traits::ToBytes::to_ne_bytes(x),
                         _ => num_traits::ToBytes::to_be_bytes(x),
                     };
                     dg.bytes(&v);
@@ -1009,6 +1016,7 @@ impl Machine {
                         2 => BigInt::from_signed_bytes_le(&bytes),
                         3 => BigInt::from_signed_bytes_be(&bytes),
                         4 => <BigInt as num_traits::FromBytes>::from_le_bytes(&bytes),
+                        6 => <BigInt as num_traits::FromBytes>::from_ne_bytes(&bytes),
                         _ => <BigInt as num_traits::FromBytes>::from_be_bytes(&bytes),
                     };
                     self.put_i(d, x, obs);
@@ -1368,6 +1376,11 @@ impl Machine {
                         9 => (format!("{:<#30b}", x), 0, false),
                         10 => (format!("{:^+25o}", x), 0, false),
                         11 => (format!("{:012X}", x), 0, true),
+                        13 => (format!("{:\u{2665}<9}", x), u32::MAX, false),
+                        14 => (format!("{:\u{e9}^+31x}", x), u32::MAX, false),
+                        15 => (format!("{:\u{2192}>#27b}", x), u32::MAX, false),
+                        16 => (format!("{:\u{1f600}<70}", x), u32::MAX, false),
+                        17 => (format!("{:\u{2665}^6o}", x), u32::MAX, false),
                         _ => (format!("{:#034x}", x), 0, false),
                     };
                     dg.str(&txt);
@@ -1387,6 +1400,7 @@ impl Machine {
                         2 => x.to_signed_bytes_le(),
                         3 => x.to_signed_bytes_be(),
                         4 => num_traits::ToBytes::to_le_bytes(x),
+                        6 => num_traits::ToBytes::to_ne_bytes(x),
                         _ => num_traits::ToBytes::to_be_bytes(x),
                     };
                     dg.bytes(&v);
